@@ -35,7 +35,7 @@ CONSTS = {
     ],
     "thorough": [
         # all 3-compartment digraphs over a 4-name pool, three operations deep
-        dict(Pool="{1, 2, 4, 5}", MaxComps=3, MaxFlows=4, OutKinds="{1, 2}", FlowKinds="{1}", MaxOps=3, Thin=96, FullDepth=1, SeedThin=1, SeedThinFrom=9, SampleMod=64),
+        dict(Pool="{1, 2, 4, 5}", MaxComps=3, MaxFlows=4, OutKinds="{1, 2}", FlowKinds="{1}", MaxOps=2, Thin=128, FullDepth=1, SeedThin=1, SeedThinFrom=9, SampleMod=64),
         # 4 compartments incl. the special names EFFECT / METABOLITE (seed flows thinned)
         dict(Pool="{1, 2, 3, 4, 5}", MaxComps=4, MaxFlows=5, OutKinds="{1, 2}", FlowKinds="{1}", MaxOps=3, Thin=512, FullDepth=0, SeedThin=6, SeedThinFrom=3, SampleMod=64),
         # nonlinear flows between compartments
